@@ -83,12 +83,18 @@ def run(rep):
              ('sqlparse.sql.TokenList.get_parent_name', None), ('sqlparse.utils.remove_quotes', None),
              ('sqlparse.utils.remove_quotes', 'None')] + tc.NAV_FUNCS + tc.OFFSET_FUNCS + \
             [(tc.GT, 'new group'), (tc.GT, 'extend flag')] + tc.MATCHER_FUNCS + tc.PASS_FUNCS + tc.JOINER_FUNCS
+    common.load_contracts()
+    from contracts.sql import ACCESSOR_TOTAL
+    funcs = funcs + list(ACCESSOR_TOTAL)
     return generic.run_generic(
         rep, funcs, structural=[replay_options, validation_dominates, rec],
         assumptions=['option values range over None | bool | int | float (finite, inf, nan) | str | other object; objects '
                      'with custom __eq__/__int__/__bool__ are outside the modelled domain',
-                     'raises-clauses are proved for the functions listed under contract; the grouping drivers, the '
-                     'accessors other than get_type, and the tree filters (StripComments, StripWhitespace, '
+                     'raises-clauses are proved for the functions listed under contract (incl. the read-only accessors '
+                     'is_wildcard, get_typecast, get_ordering, Comparison.left/right, get_window, get_parameters [given the '
+                     'Function shape: a Parenthesis child], get_alias, get_real_name, get_name, has_alias, _get_first_name, '
+                     'get_parent_name, get_token_at_offset on an arbitrary well-formed node); get_cases, get_identifiers '
+                     'as generators, and the tree filters (StripComments, StripWhitespace, '
                      'SpacesAroundOperators, Reindent, AlignedIndent, output filters) are covered by the bounded stand-in '
                      '(token soups x 14 option sets, accessor walk) only',
                      'RecursionError: obligations of C15'],
